@@ -137,6 +137,18 @@ Definition wf_opb (o : op) : bool :=
   end.
 Definition wf_opsb (ops : list op) : bool := forallb wf_opb ops.
 
+(** "usable (registered, connected and not timed out)" in the property's own words:
+    registered = the REG3 handshake completed (phase is not Registering); connected = the flag;
+    timed out = the last datagram received on the link is at least [timeout] ms old (a connected
+    link that has not received anything yet is not timed out: its clock has not started). *)
+Definition usable_spec (now timeout : Z) (c : link) : bool :=
+  l_conn c &&
+  match l_phase c with PReg => false | _ => true end &&
+  match l_lastrx c with
+  | None => true
+  | Some lr => Z.max 0 (now - lr) <? timeout
+  end.
+
 (** 1 + 2 * violation-bit + 4 * detail + 1024 * step *)
 Definition verdict (diff viol : N) (vstep : N) : N :=
   let b0 := if (diff =? 0)%N then 0%N else 1%N in
